@@ -15,7 +15,8 @@ RULE = (
   "case = rich constrained model x batch of 2-4 worlds of different difficulty (different states) x solver/cone/jacobian; reference = forward() with "
   "iteration limit 200 giving N*_w per world; then limits L in {1..max N*+2} (quick: subset) and graph_conditional on/off. Oracle: niter_w <= L; "
   "L < N*_w => niter_w == L and ITERATIONS bit set; L >= N*_w => niter_w == N*_w, bit clear, qacc and efc.force bit-identical to the reference; "
-  "companion invariance: replacing the other worlds' states (same batch size and position) leaves world 0's niter/qacc/efc.force bit-identical; "
+  "per-world tolerances (batched opt.tolerance, a third of the cases): world w of the mixed batch stops exactly where it stops when every world gets w's tolerance (niter, bit, qacc bit-identical), "
+  "also under limits just below the per-world counts; companion invariance: replacing the other worlds' states (same batch size and position) leaves world 0's niter/qacc/efc.force bit-identical; "
   "evaluation = one (limit or companion) run; non-trivial = worlds with >=2 distinct N*; at L=0 only niter==0 is judged"
 )
 ASSUMPTIONS = ["CPU device; same batch size and world position in all compared runs, so bitwise equality is demanded", "L=0: the statement does not pin the ITERATIONS bit (no tolerance test is ever evaluated)"]
@@ -31,12 +32,18 @@ def strategy(tier):
       seed=st.integers(0, 10**6),
       limits=st.lists(st.integers(0, 40), min_size=2, max_size=4),
       graph_conditional=st.booleans(),
+      # per-world solver tolerances (batched Option field, >= 1e-6: put_model's clamp), None = the model's single tolerance
+      tols=st.sampled_from([None, None, [1e-6, 1e-2, 1e-4, 1e-3], [1e-2, 1e-6, 1e-6, 1e-4], [1e-4, 1e-4, 1e-2, 1e-6]]),
     )
   )
 
 
-def solve(mjm, m, states, L, graph_conditional=True):
+def solve(mjm, m, states, L, graph_conditional=True, tol=None):
+  import warp as wp
+
   m.opt.iterations = int(L)
+  if tol is not None:
+    m.opt.tolerance = wp.array(np.atleast_1d(np.asarray(tol, dtype=np.float32)), dtype=float)  # shape (1,) or (nworld,)
   m.opt.graph_conditional = bool(graph_conditional)
   d = H.make_data(mjm, nworld=len(states), nconmax=120, njmax=400)
   H.set_data(d, states)
@@ -119,5 +126,40 @@ def check(case, rec):
           rec.violation(f"ITERATIONS bit set although the world converged {ctx}", sig="limit:bit-spurious", **ctx)
         check_equal(rec, "qacc", r["qacc"][w], ref["qacc"][w], sig="limit:qacc", **ctx)
         check_equal(rec, "efc.force", r["force"][w][: ref["nefc"][w]], ref["force"][w][: ref["nefc"][w]], sig="limit:force", **ctx)
+  # per-world tolerances: world w of the mixed batch must stop exactly where it stops in the same batch with its tolerance given to every world
+  if case.get("tols"):
+    tols = [float(t) for t in case["tols"][:n]]
+    uni = {t: solve(mjm, m, states, 200, tol=[t]) for t in sorted(set(tols))}
+    Nw = np.array([int(uni[tols[w]]["niter"][w]) for w in range(n)])
+    conv = np.array([not (uni[tols[w]]["overflow"][w] & int(OT.ITERATIONS)) for w in range(n)])
+    cand = sorted({200} | {int(x) for x in Nw if 1 <= x <= 60} | {int(x) - 1 for x in Nw if 2 <= x <= 60})
+    rec.cls(f"tols:distinctN:{len(set(Nw.tolist())) > 1}")
+    for L in cand[:4] if L_quick(case) else cand:
+      r = solve(mjm, m, states, L, graph_conditional=case["graph_conditional"], tol=tols)
+      rec.ev()
+      for w in range(n):
+        if not conv[w] or int(ref["nefc"][w]) == 0:
+          continue
+        u = uni[tols[w]]
+        ctx = dict(L=L, world=w, tolerance=tols[w], tols=tols, Nstar=int(Nw[w]), niter=int(r["niter"][w]), overflow=int(r["overflow"][w]))
+        bit = bool(r["overflow"][w] & int(OT.ITERATIONS))
+        if L < Nw[w]:
+          if r["niter"][w] != L:
+            rec.violation(f"per-world tolerance: world stopped before the limit without meeting its own tolerance {ctx}", sig="tols:niter", **ctx)
+          if not bit:
+            rec.violation(f"per-world tolerance: ITERATIONS bit not set although the limit cut the solve short {ctx}", sig="tols:bit-missing", **ctx)
+        else:
+          if r["niter"][w] != Nw[w]:
+            rec.violation(f"per-world tolerance: niter differs from the count under this world's own tolerance {ctx}", sig="tols:niter-converged", **ctx)
+          if bit:
+            rec.violation(f"per-world tolerance: ITERATIONS bit set although the world met its tolerance {ctx}", sig="tols:bit-spurious", **ctx)
+          check_equal(rec, "qacc (per-world tolerance)", r["qacc"][w], u["qacc"][w], sig="tols:qacc", **ctx)
+    solve(mjm, m, states, 200, tol=[float(mjm.opt.tolerance if mjm.opt.tolerance >= 1e-6 else 1e-6)])  # (restore the model's own tolerance on m)
+    if len(set(Nw.tolist())) > 1 and len(set(tols)) > 1:
+      rec.nt(extra="tols")
   if len(set(N.tolist())) > 1:
     rec.nt()
+
+
+def L_quick(case):
+  return True
